@@ -9,7 +9,9 @@ correspondence:  for each key sequence ks and an object holding a value at ks:
                  parser/extractor on arbitrary (hand-written, mutated, random)
                  path strings, and extract over every position of random values.
 direct oracle:   the property statement on DeepDiff(obj1, obj2) where obj1/obj2
-                 differ exactly at the location ks.
+                 differ exactly at the location ks; and on diffs with 3-6 changed
+                 children under one container: the list-form path of every leaf
+                 level (asked twice) and of every ancestor level.
 """
 import copy
 import itertools
@@ -24,7 +26,8 @@ THEOREM_FILE = "Properties/C09.v"
 COQCHK = ["Properties.C09"]
 RULE = ("exhaustive: every string key of length <= 3 over the 23-character hostile alphabet (quick: all of length <= 2 and a seeded slice of length 3), "
         "as the only key and embedded in key sequences; random: key sequences of depth <= 4 mixing hostile strings (length <= 6), ints (negative too), "
-        "half-integer floats, None, True/False and list/tuple indexes, inside containers with sibling entries; a case is non-trivial when the sequence "
+        "half-integer floats, None, True/False and list/tuple indexes, inside containers with sibling entries; diffs with 3-8 changed leaves under one "
+        "container at depth 0-2 (list-form path of every leaf level, asked twice, and of every ancestor level); a case is non-trivial when the sequence "
         "is non-empty; distinct = distinct (key sequence, object)")
 TRUSTED = ["ast.literal_eval is modelled on the sub-language reachable from rendered paths (prefixed quoted strings, signed decimal ints / point floats "
            "with underscores, None/True/False, Python's white-space rules); other inputs make the model answer 'unsupported' and are counted, not compared",
@@ -494,6 +497,172 @@ def extract_positions(ctx, n):
     ctx.coq_cases("extract_positions", HEADER, cases, shard=250, label="extract_positions")
 
 
+# ---- several changed children under one container: list-form paths of every level ----
+
+def build_multi(locs, leaf):
+    """Merge the locations (key sequences) into one object; every location holds `leaf`.
+    Sequence levels are lists, gaps are filled with None."""
+    if any(len(l) == 0 for l in locs):
+        return leaf
+    groups = {}
+    order = []
+    for l in locs:
+        k = l[0]
+        gk = (k[0], type(k[1]).__name__, k[1])
+        if gk not in groups:
+            groups[gk] = (k, [])
+            order.append(gk)
+        groups[gk][1].append(l[1:])
+    if locs[0][0][0] == "x":
+        n = max(groups[g][0][1] for g in order) + 1
+        items = [None] * n
+        for g in order:
+            k, subs = groups[g]
+            items[k[1]] = build_multi(subs, leaf)
+        return items
+    return {groups[g][0][1]: build_multi(groups[g][1], leaf) for g in order}
+
+
+def gen_multi(rng, pool):
+    prefix = [gen_key(rng, pool) for _ in range(rng.randint(0, 2))]
+    m = rng.randint(3, 6)
+    if rng.random() < 0.35:
+        idx = rng.sample(range(m + rng.randint(0, 2)), m)
+        heads = [("x", i) for i in sorted(idx)]
+    else:
+        heads = []
+        tries = 0
+        while len(heads) < m and tries < 60:
+            tries += 1
+            k = gen_key(rng, pool)
+            if k[0] == "x":
+                k = ("k", k[1])
+            if all(not (k[1] == h[1]) for h in heads):
+                heads.append(k)
+    locs = []
+    for h in heads:
+        tail = []
+        if rng.random() < 0.3:
+            tail = [gen_key(rng, pool)]
+            if rng.random() < 0.3:
+                # a second changed leaf below the same child
+                k2 = ("x", tail[0][1] + 1) if tail[0][0] == "x" else ("k", "zz")
+                if tail[0][0] == "x" or not (tail[0][1] == "zz"):
+                    locs.append(prefix + [h] + [k2])
+        locs.append(prefix + [h] + tail)
+    return locs
+
+
+def typed_seq_eq(got, raw):
+    return isinstance(got, list) and len(got) == len(raw) and all(typed_key_eq(x, y) for x, y in zip(got, raw))
+
+
+def observe_multi(locs):
+    """Returns (expected observable for c09_multi, failure text or None)."""
+    from deepdiff import DeepDiff, parse_path
+    from deepdiff.path import stringify_path
+    obj1, obj2 = build_multi(locs, 1), build_multi(locs, 2)
+    raws = [[a for _t, a in l] for l in locs]
+    strs = [stringify_path(r, root_element=("root", "GET")) for r in raws]
+    if len(set(strs)) != len(strs):
+        return None, None          # two locations print alike (outside the guard): nothing to match levels by
+    tree = DeepDiff(obj1, obj2, ignore_private_variables=False, view="tree")
+    if list(tree.keys()) != ["values_changed"] or len(tree["values_changed"]) != len(locs):
+        return None, "DeepDiff did not report exactly the %d changed leaves: %r" % (len(locs), tree)
+    levels = list(tree["values_changed"])
+    by_str = {}
+    for lv in levels:
+        by_str[lv.path()] = lv
+    if set(by_str) != set(strs):
+        return None, "reported paths %r, expected %r" % (sorted(by_str), sorted(strs))
+    ordered = [by_str[s_] for s_ in strs]
+    why = None
+    first = {}
+    # 1. every leaf, in the order DeepDiff reports them
+    for lv in levels:
+        i = strs.index(lv.path())
+        got = lv.path(output_format="list")
+        first[i] = got
+        if why is None and not typed_seq_eq(got, raws[i]):
+            why = "tree view list path of %s is %r, the key sequence is %r" % (strs[i], got, raws[i])
+    # 2. every ancestor level up to the root
+    anc = {}
+    for i, lv in enumerate(ordered):
+        anc[i] = []
+        up, d = lv.up, len(raws[i]) - 1
+        while up is not None:
+            got = up.path(output_format="list")
+            anc[i].append(got)
+            if why is None and (d < 0 or not typed_seq_eq(got, raws[i][:d])):
+                why = "list path of the ancestor level %s of %s is %r, expected %r" % (up.path(), strs[i], got, raws[i][:max(d, 0)])
+            up, d = up.up, d - 1
+        if why is None and d != -1:
+            why = "level %s has %d ancestors, expected %d" % (strs[i], len(anc[i]), len(raws[i]))
+    # 3. every leaf a second time
+    second = {}
+    for i, lv in enumerate(ordered):
+        got = lv.path(output_format="list")
+        second[i] = got
+        if why is None and not typed_seq_eq(got, raws[i]):
+            why = "tree view list path of %s asked a second time is %r, the key sequence is %r" % (strs[i], got, raws[i])
+    # 4. the list form is what parse_path makes of the string form
+    for i, lv in enumerate(ordered):
+        if why is None and path_ok(locs[i]) and not typed_seq_eq(parse_path(lv.path()), first[i]):
+            why = "parse_path(%r) = %r differs from the list-form path %r" % (strs[i], parse_path(lv.path()), first[i])
+
+    def cl(seq):
+        return [["k", canon_or_nonatom(x)] for x in seq] if isinstance(seq, list) else "NOLIST"
+    exp = [[strs[i], cl(first[i]), cl(second[i]), [cl(a) for a in anc[i]]] for i in range(len(locs))]
+    return exp, why
+
+
+def _multi_task(locs):
+    logging.disable(logging.CRITICAL)
+    try:
+        exp, why = observe_multi(locs)
+    except Exception as e:
+        return (locs, None, "the path API raised %s: %s" % (type(e).__name__, e))
+    return (locs, exp, why)
+
+
+def multi_case(locs, why=None):
+    d = {"locations": [[key_json(k) for k in l] for l in locs],
+         "python": "levels of DeepDiff(build_multi(locs,1), build_multi(locs,2), ignore_private_variables=False, view='tree')['values_changed']; "
+                   "locs = %r" % ([[a for _t, a in l] for l in locs],)}
+    if why:
+        d["failure"] = why
+    return d
+
+
+def multi_leaf(ctx, pool, n):
+    rng = ctx.rng
+    inputs = [gen_multi(rng, pool) for _ in range(n)]
+    # fixed small ones: three siblings in a dict / in a list, at the root and two levels down
+    inputs += [[[("k", "a")], [("k", "b")], [("k", "c")]],
+               [[("x", 0)], [("x", 1)], [("x", 2)], [("x", 3)]],
+               [[("k", "a.b"), ("k", "it's"), ("x", 0), ("k", "x")], [("k", "a.b"), ("k", "it's"), ("x", 0), ("k", "y][")],
+                [("k", "a.b"), ("k", "it's"), ("x", 0), ("k", " z ")], [("k", "a.b"), ("k", "it's"), ("x", 0), ("k", 1.5)]]]
+    with mp.get_context("fork").Pool(core.NCPU) as pool_:
+        res = pool_.map(_multi_task, inputs, chunksize=16)
+    cases = []
+    for locs, exp, why in res:
+        if exp is None and why is None:
+            ctx.count("multi_leaf:skipped(locations print alike)")
+            continue
+        ctx.seen(("multi", repr(locs)), nontrivial=True)
+        ctx.count("multi_leaf:%d_locations" % len(locs))
+        cp = 0
+        while all(len(l) > cp for l in locs) and all(l[cp] == locs[0][cp] for l in locs):
+            cp += 1
+        ctx.count("multi_leaf:container_%s_at_depth_%d" % ("list" if locs[0][cp][0] == "x" else "dict", cp))
+        if why:
+            ctx.fail(multi_case(locs, why), why)
+        if exp is not None:
+            cases.append(("c09_multi [%s]" % "; ".join(coq_path(l) for l in locs), exp, multi_case(locs)))
+    ctx.sample({"multi_leaf_locations": [[a for _t, a in l] for l in inputs[0]]})
+    ctx.coq_cases("multi_leaf", HEADER, cases, shard=100, label="multi_leaf")
+
+
 # ---- refuted witnesses still fail on the implementation -----------------------
 
 def witnesses(ctx):
@@ -512,6 +681,7 @@ def run(ctx):
     pool2, len3 = exhaustive_single(ctx)
     pool = pool2 + len3[:2000]
     embedded(ctx, pool, 6000 if ctx.thorough else 1200)
+    multi_leaf(ctx, pool, 1500 if ctx.thorough else 300)
     parser_strings(ctx, 3000 if ctx.thorough else 600)
     extract_positions(ctx, 400 if ctx.thorough else 80)
 
@@ -528,6 +698,15 @@ def replay(ctx, data):
             ctx.fail(case_dict(ks, case.get("sib_seed"), why), why)
         if exp is not None:
             ctx.coq_cases("replay", HEADER, [("c09_case_or %s %s (%s)" % (coq_path(ks), values.to_coq(obj1), core.sx(exp)), exp, case)])
+    elif "locations" in case:
+        locs = [[key_unjson(j) for j in l] for l in case["locations"]]
+        exp, why = observe_multi(locs)
+        ctx.seen(("replay", repr(locs)), nontrivial=True)
+        print("replay: locations=%r observed=%r failure=%r" % ([[a for _t, a in l] for l in locs], exp, why))
+        if why:
+            ctx.fail(multi_case(locs, why), why)
+        if exp is not None:
+            ctx.coq_cases("replay", HEADER, [("c09_multi [%s]" % "; ".join(coq_path(l) for l in locs), exp, case)])
     elif "obj" in case and "keys" in case:
         import ast
         from deepdiff import extract
